@@ -329,6 +329,7 @@ def replay_file(prop, path, state):
 
 def run_check(prop_id, tier, seed_value, replay=None):
   t0 = time.time()
+  os.environ['VERIF_TIER_EFFECTIVE'] = tier
   prop = load_prop(prop_id)
   findings_entries = [e for e in load_findings() if e.get('property') == prop_id]
 
